@@ -132,6 +132,17 @@ def _real_slope(db, u):
     return float(db.Convert(qt, u, base, 1.0)) - float(db.Convert(qt, u, base, 0.0))
 
 
+def _real_slope_nd(db, u):
+    """the same factor through the ndarray branch of the conversion (Array-valued amounts in the named unit)"""
+    import numpy
+
+    info = db.unit_to_unit_info[u]
+    qt = info.quantity_type
+    base = db.quantity_types[qt][0].unit
+    r = db.Convert(qt, u, base, numpy.array([1.0, 0.0]))
+    return float(r[0]) - float(r[1])
+
+
 def _scalar_in_base(db, u, amount):
     """a Scalar holding `amount` of unit u, re-expressed (as an increment) in the base unit of u's type"""
     from barril.units import Scalar
@@ -210,6 +221,10 @@ def impl(c, ctx):
         out["real_slope"] = _real_slope(ctx.db, s).hex()
     except Exception as e:
         out["real_slope_err"] = err_kind(e)
+    try:
+        out["real_slope_nd"] = _real_slope_nd(ctx.db, s).hex()
+    except Exception as e:
+        out["real_slope_nd_err"] = err_kind(e)
     if j is None:
         out["reading"] = None
         return dict(ok=out)
@@ -259,6 +274,13 @@ def agree(c, io, mo, ctx):
         if not close(r, qparse(m["slope"]), abs(qparse(m["slope"])) * 8) and \
                 not _affine_slack(ctx, c["_t"]["s"], r, qparse(m["slope"])):
             return "real conversion factor %r is not the model's slope %s" % (r, float(qparse(m["slope"])))
+    if "real_slope_nd" in i:
+        r = float.fromhex(i["real_slope_nd"])
+        if not close(r, qparse(m["slope"]), abs(qparse(m["slope"])) * 8) and \
+                not _affine_slack(ctx, c["_t"]["s"], r, qparse(m["slope"])):
+            return "real conversion factor through the ndarray branch %r is not the model's slope %s" % (r, float(qparse(m["slope"])))
+    elif "real_slope_nd_err" in i and "real_slope" in i:
+        return "the ndarray branch of the conversion raised: " + i["real_slope_nd_err"]
     if i["reading"] is None:
         return None
     for k in ("expected", "tol", "base_expected"):
@@ -312,6 +334,10 @@ def oracle(c, ctx):
     db = ctx.db
     try:
         named = _real_slope(db, s)
+        named_nd = _real_slope_nd(db, s)
+        if abs(named_nd - named) > 1e-9 * abs(named) + 1e-300:
+            return dict(clause="an ndarray amount in the named unit converts with another factor than a float amount",
+                        symbol=s, float_factor=named, ndarray_factor=named_nd)
         composed = _real_composed(db, kind, parts)
         tol = float(rows[s]["prec"] + c06rule._expected(kind, parts, rows)[1])
         b = ctx.base_of[rows[s]["qtype"]]
